@@ -6,7 +6,9 @@ DString *d_string_new(const char *s) { DString *d = malloc(sizeof(DString)); if 
 char *d_string_free(DString *d, bool f) { if (!d) return 0; char *r = d->str; if (f) { free(d->str); r = 0; } free(d); return r; }
 void d_string_append_c(DString *d, char c) {}
 void d_string_append(DString *d, const char *s) {}
+#ifndef DS_NO_C_ARRAY
 void d_string_append_c_array(DString *d, const char *s, size_t n) {}
+#endif
 void d_string_insert(DString *d, size_t pos, const char *s) {}
 void d_string_prepend(DString *d, const char *s) {}
 void d_string_insert_c(DString *d, size_t pos, char c) {}
